@@ -4,6 +4,7 @@ From K Require Import Lib.Bits Lib.Types Model.Machine Model.Exec Spec.ISA
   Proofs.DecodeProofs Proofs.DecodeProofs78 Proofs.DecodeProofsBitC Proofs.DecodeProofsBitD Proofs.DecodeProofsBitEF.
 Import ListNotations.
 From K Require Import Proofs.TwoByte.
+From K Require Import Model.Cost Model.Addressing Proofs.MemProofs Proofs.StepProofs Proofs.StepRefines Proofs.StepRefinesCtl Proofs.StepRefines2.
 Open Scope Z_scope.
 
 (* [agree t w0 w1 i]: handler family t, run on the opcode words, executes instruction i - same family, same
@@ -88,8 +89,19 @@ Theorem two_byte_decode_ignores_later_words :
   forall w0 w1 w2 w3 w4 i, decode_ref w0 w1 w2 w3 w4 = Some (i, 2) -> decode_ref w0 0 0 0 0 = Some (i, 2).
 Proof. exact two_byte_independent. Qed.
 
+(* STC.B CCR,Rd: from the instruction word in memory to sem_ref *)
+Theorem step_stc_byte :
+  forall s w w1 w2 w3 w4 rd n,
+    cpu_ok s -> bus_bytes_ok s -> fault s = false -> pc s mod 2 = 0 -> 0 <= pc s -> pc s + 2 < 4294967296 ->
+    mem_read SW s (pc s) = Some w ->
+    decode_ref w w1 w2 w3 w4 = Some (IStcB rd, 2) ->
+    cs KI 1 (post_fetch s) = Ok n (post_fetch s) ->
+    exists s', sem_ref (IStcB rd) 2 s = Some s' /\ step s = Ok n (set_opc (pc s) s').
+Proof. exact step_stc_b_proof. Qed.
+
 Print Assumptions first_word_dispatch.
 Print Assumptions unimplemented_rejected.
 Print Assumptions second_word_dispatch_01.
 Print Assumptions second_word_dispatch_78_7x.
 Print Assumptions two_byte_decode_ignores_later_words.
+Print Assumptions step_stc_byte.
